@@ -410,6 +410,109 @@ def dec_wind(b, ny, nx, nz):
     return r
 
 
+CR_VARS5 = ('cloud', 'rain', 'snow', 'graupel', 'cod')
+CR_VARS3 = ('cloud', 'precip', 'cod')
+
+
+def enc_cloud_rain(r):
+    """header record: text (20 characters), nx, ny, nz; then per step a (hour, idate) record followed, layer by
+    layer, by one (ny,nx) record per variable (5 variables since CAMx 4.3, 3 before)"""
+    out = rec(r['cldhdr'].encode('ascii') + _S.pack('>iii', r['nx'], r['ny'], r['nz']))
+    for ti, (hour, idate) in enumerate(r['times']):
+        out += rec(_S.pack('>fi', hour, idate))
+        for zi in range(r['nz']):
+            for k in r['crvars']:
+                out += rec(f4(r[k][ti][zi]))
+    return out
+
+
+def dec_cloud_rain(b, nvars=None):
+    recs = records(b)
+    if not recs or len(recs[0]) < 12:
+        raise LayoutError('no cloud/rain header record')
+    nx, ny, nz = struct.unpack('>iii', recs[0][-12:])
+    hdr = recs[0][:-12].decode('ascii')
+    body = recs[1:]
+    if nvars is None:
+        for nvars in (5, 3):
+            if len(body) % (1 + nvars * nz) == 0:
+                break
+        else:
+            raise LayoutError('%d records do not tile into steps of 1 + {5,3} x %d' % (len(body), nz))
+    per = 1 + nvars * nz
+    if len(body) % per:
+        raise LayoutError('%d records for %d per step' % (len(body), per))
+    names = CR_VARS5 if nvars == 5 else CR_VARS3
+    r = {'nx': nx, 'ny': ny, 'nz': nz, 'cldhdr': hdr, 'times': [], 'crvars': list(names)}
+    for k in names:
+        r[k] = []
+    for ti in range(len(body) // per):
+        d = body[ti * per]
+        if len(d) != 8:
+            raise LayoutError('time record of %d bytes' % len(d))
+        r['times'].append(struct.unpack('>fi', d))
+        for k in names:
+            r[k].append([])
+        for zi in range(nz):
+            for vi, k in enumerate(names):
+                d = body[ti * per + 1 + zi * nvars + vi]
+                if len(d) != 4 * nx * ny:
+                    raise LayoutError('cloud/rain field record of %d bytes, expected %d' % (len(d), 4 * nx * ny))
+                r[k][ti].append(np.frombuffer(d, dtype='>f4').reshape(ny, nx).astype('f4'))
+    return r
+
+
+def enc_landuse(r):
+    """old style: one record fland(nland=11, ny, nx), optionally one record topo(ny, nx);
+    new style: every data record is preceded by an 8-character key record
+    ('LUCAT11 ' / 'LUCAT26 ', then optionally 'LAI     ' and/or 'TOPO    ')"""
+    out = b''
+    if r['style'] == 'old':
+        out += rec(f4(r['fland']))
+        for key, a in r['others']:
+            out += rec(f4(a))
+        return out
+    out += rec(('LUCAT%02d' % r['nland']).ljust(8).encode('ascii')) + rec(f4(r['fland']))
+    for key, a in r['others']:
+        out += rec(key.ljust(8).encode('ascii')) + rec(f4(a))
+    return out
+
+
+def dec_landuse(b, ny, nx):
+    recs = records(b)
+    if not recs:
+        raise LayoutError('empty land-use file')
+    r = {'nx': nx, 'ny': ny, 'others': []}
+    if len(recs[0]) == 8:
+        r['style'] = 'new'
+        if len(recs) % 2:
+            raise LayoutError('new-style land-use file with %d records' % len(recs))
+        key = recs[0].decode('ascii')
+        if key not in ('LUCAT11 ', 'LUCAT26 '):
+            raise LayoutError('first key is %r' % key)
+        nland = int(key[5:7])
+        if len(recs[1]) != 4 * nland * ny * nx:
+            raise LayoutError('land-use record of %d bytes, expected %d' % (len(recs[1]), 4 * nland * ny * nx))
+        r['nland'] = nland
+        r['fland'] = np.frombuffer(recs[1], dtype='>f4').reshape(nland, ny, nx).astype('f4')
+        for i in range(2, len(recs), 2):
+            if len(recs[i]) != 8 or len(recs[i + 1]) != 4 * ny * nx:
+                raise LayoutError('optional land-use records of %d, %d bytes' % (len(recs[i]), len(recs[i + 1])))
+            r['others'].append((recs[i].decode('ascii').strip(),
+                                np.frombuffer(recs[i + 1], dtype='>f4').reshape(ny, nx).astype('f4')))
+        return r
+    r['style'] = 'old'
+    r['nland'] = 11
+    if len(recs[0]) != 4 * 11 * ny * nx:
+        raise LayoutError('land-use record of %d bytes, expected %d' % (len(recs[0]), 4 * 11 * ny * nx))
+    r['fland'] = np.frombuffer(recs[0], dtype='>f4').reshape(11, ny, nx).astype('f4')
+    for d in recs[1:]:
+        if len(d) != 4 * ny * nx:
+            raise LayoutError('optional land-use record of %d bytes' % len(d))
+        r['others'].append(('TOPO', np.frombuffer(d, dtype='>f4').reshape(ny, nx).astype('f4')))
+    return r
+
+
 CODECS = {
     'uamiv': (enc_uamiv, dec_uamiv),
     'lateral_boundary': (enc_lateral_boundary, dec_lateral_boundary),
@@ -419,6 +522,8 @@ CODECS = {
     'temperature': (enc_temperature, dec_temperature),
     'height_pressure': (enc_height_pressure, dec_height_pressure),
     'wind': (enc_wind, dec_wind),
+    'cloud_rain': (enc_cloud_rain, dec_cloud_rain),
+    'landuse': (enc_landuse, dec_landuse),
 }
 
 
